@@ -406,6 +406,24 @@ const char* const XSL_FAIL_TERMINATE =
     "<t/></e></xsl:for-each></out></xsl:template>"
     "</xsl:stylesheet>";
 
+// key() evaluated with the context inside a result tree fragment (a key table is built for the fragment), then the
+// transformation is terminated while the fragment is alive
+const char* const XSL_FAIL_RTF_KEY =
+    XSL_HEAD " xmlns:xalan=\"http://xml.apache.org/xalan\" exclude-result-prefixes=\"xalan\">" XSL_OUT
+    "<xsl:key name=\"k\" match=\"c\" use=\"@v\"/>"
+    "<xsl:template match=\"/\"><xsl:variable name=\"t\"><r><xsl:for-each select=\"//item\"><c v=\"{@g}\"/></xsl:for-each></r></xsl:variable>"
+    "<out><xsl:for-each select=\"xalan:nodeset($t)\"><n><xsl:value-of select=\"count(key('k','x'))\"/></n>"
+    "<xsl:message terminate=\"yes\">stop inside the fragment</xsl:message></xsl:for-each></out></xsl:template>"
+    "</xsl:stylesheet>";
+
+const char* const XSL_RTF_KEY =
+    XSL_HEAD " xmlns:xalan=\"http://xml.apache.org/xalan\" exclude-result-prefixes=\"xalan\">" XSL_OUT
+    "<xsl:key name=\"k\" match=\"c\" use=\"@v\"/>"
+    "<xsl:template match=\"/\"><xsl:variable name=\"t\"><r><xsl:for-each select=\"//item\"><c v=\"{@g}\"/></xsl:for-each></r></xsl:variable>"
+    "<out><xsl:for-each select=\"xalan:nodeset($t)\"><n><xsl:value-of select=\"count(key('k','x'))\"/></n></xsl:for-each>"
+    "<m><xsl:value-of select=\"count(key('k','x'))\"/></m></out></xsl:template>"
+    "</xsl:stylesheet>";
+
 const char* const XSL_FAIL_KEY =
     XSL_HEAD ">" XSL_OUT
     "<xsl:key name=\"k\" match=\"item\" use=\"@g\"/>"
@@ -548,6 +566,8 @@ void scTrUnknownEncoding(Ctx& c){ streamTransform(c, "transform", XSL_XML_UNKNOW
 void scTrSourceErr(Ctx& c)      { streamTransform(c, "transform", XSL_KEY, DOC_BAD); }
 void scFailTerminate(Ctx& c)    { streamTransform(c, "transform", XSL_FAIL_TERMINATE, DOC); }
 void scFailKey(Ctx& c)          { streamTransform(c, "transform", XSL_FAIL_KEY, DOC); }
+void scFailRtfKey(Ctx& c)       { streamTransform(c, "transform", XSL_FAIL_RTF_KEY, DOC); }
+void scTrRtfKey(Ctx& c)         { streamTransform(c, "transform", XSL_RTF_KEY, DOC); }
 void scFailNodeset(Ctx& c)      { streamTransform(c, "transform", XSL_FAIL_NODESET, DOC); }
 
 void scTrXercesDom(Ctx& c)
@@ -625,6 +645,8 @@ const Scen kScens[] = {
     { "fail_terminate",     scFailTerminate,    true,  true  },
     { "fail_unknown_key",   scFailKey,          false, false },
     { "fail_nonnodeset",    scFailNodeset,      false, false },
+    { "fail_rtf_key_terminate", scFailRtfKey,   false, false },
+    { "tr_rtf_key",         scTrRtfKey,         false, false },
     { "reuse_twice",        scReuseTwice,       true,  true  },
     { "params",             scParams,           false, true  },
 };
